@@ -19,6 +19,13 @@
 
 namespace ex {
 
+// Set while the (single) explorer thread is inside BuildEngine::build(): a
+// blocking condition wait on that thread can never be satisfied (nobody else
+// exists to signal it) and is reported as a lost wake-up by the interposer in
+// enginex/main.cpp.
+struct EngineThreadState { volatile bool inBuild = false; pthread_t thread; };
+inline EngineThreadState& engineThreadState() { static EngineThreadState s; return s; }
+
 using namespace llbuild;
 using namespace llbuild::core;
 using uv::Mode;
@@ -957,6 +964,8 @@ inline BuildObs Session::build(const Event& ev) {
   verif::pointHook = &hookTrampoline;
   verif::pointHookContext = this;
   inBuild = true;
+  engineThreadState().thread = pthread_self();
+  engineThreadState().inBuild = !cfg.capi;
   std::string value;
   try {
     std::string kn = keyName(ev.key);
@@ -977,6 +986,7 @@ inline BuildObs Session::build(const Event& ev) {
     dead = true;
   }
   inBuild = false;
+  engineThreadState().inBuild = false;
   verif::pointHook = savedHook;
   verif::pointHookContext = savedCtx;
   chooser = nullptr;
